@@ -119,6 +119,23 @@ def target_state(content, old, new_payload):
     return "bad:other-content"
 
 
+def load_bytes(content):
+    """storage.load of a file holding `content` (None: no file) -> StoredState | None | 'raise:X'"""
+    from mopidy.internal import storage
+
+    root = Path(tempfile.mkdtemp(prefix="verif-c11-"))
+    try:
+        p = root / "state.json.gz"
+        if content is not None:
+            p.write_bytes(content)
+        try:
+            return storage.load(p)
+        except Exception as e:  # noqa: BLE001
+            return "raise:" + type(e).__name__
+    finally:
+        shutil.rmtree(root, ignore_errors=True)
+
+
 def g_files(d, snap):
     return g_list([f"({g_bytes(d + b'/' + k)}, {g_bytes(v)})" for k, v in sorted(snap.items())])
 
@@ -238,6 +255,18 @@ def save_stage(chk):
         others = sorted(k for k in r["snapshot"] if k != b"state.json.gz")
         rename_idx = next((i for i, o in enumerate(base["trace"]["ops"]) if o[0] == "rename"), None)
         after_rename = rename_idx is not None and att["index"] > rename_idx
+        # save ; crash ; load at the level of the decoded session (theorem C11_dump_crash_load)
+        import files_child
+        loaded = load_bytes(content)
+        old_loaded = load_bytes(sc.old)
+        new_loaded = (files_child.make_state(sc.n, sc.salt) if sc.action == "dump"
+                      else load_bytes(base["snapshot"].get(b"state.json.gz")))
+        chk.dist("restart_session:" + ("old" if loaded == old_loaded else "new" if loaded == new_loaded else "OTHER"))
+        if loaded != old_loaded and loaded != new_loaded:
+            chk.monitor_failure(
+                "crash_then_load", {"call": sc.action, "inject": "crash" if what == "kill" else "fault", "at": att["kind"]},
+                f"{what} at call #{ai} ({att['kind']}), then storage.load: the restored session is neither the one the old "
+                "file gave nor the new one", {**case, "loaded": repr(loaded)[:200]})
         chk.count(1, nontrivial_key=(what == "kill", sc.action, sc.n, sc.old_kind, ai))
         chk.dist("crash" if what == "kill" else "fault")
         chk.dist(f"at:{att['kind']}")
@@ -559,30 +588,29 @@ OUTCOMES = ["NotAFile", "DOSError", "DEOFError", "DZlibError", "DValueError", "D
 
 
 def oracle(path):
-    """Independent decoding oracle: which outcome class does this file produce?"""
+    """Independent decoding oracle, stage by stage: (outcome class, state, gunzip stage, validate stage).
+    gunzip stage: 0 OSError, 1 EOFError, 2 zlib.error, 3 ok; validate stage: 0 ValueError, 1 ok, -1 not reached."""
     from mopidy.internal.models import StoredState
 
     if not path.is_file():
-        return "NotAFile", None
+        return "NotAFile", None, -1, -1
     try:
         with gzip.open(str(path), "rb") as fp:
             raw = fp.read()
     except EOFError:
-        return "DEOFError", None
+        return "DEOFError", None, 1, -1
     except zlib.error:
-        return "DZlibError", None
+        return "DZlibError", None, 2, -1
     except OSError:
-        return "DOSError", None
-    except ValueError:
-        return "DValueError", None
+        return "DOSError", None, 0, -1
     except Exception as e:  # noqa: BLE001
-        return f"Other:{type(e).__name__}", None
+        return f"Other:gunzip:{type(e).__name__}", None, -1, -1
     try:
-        return "DOk", StoredState.model_validate_json(raw)
+        return "DOk", StoredState.model_validate_json(raw), 3, 1
     except ValueError:
-        return "DValueError", None
+        return "DValueError", None, 3, 0
     except Exception as e:  # noqa: BLE001
-        return f"Other:{type(e).__name__}", None
+        return f"Other:validate:{type(e).__name__}", None, 3, -1
 
 
 def load_contents(chk):
@@ -673,7 +701,7 @@ def load_stage(chk):
                 elif kind == "directory":
                     path.mkdir()
             place()
-            out, state = oracle(path)
+            out, state, gz, js = oracle(path)
             try:
                 got = storage.load(path)
                 obs = "none" if got is None else "some"
@@ -696,7 +724,7 @@ def load_stage(chk):
             same = (got == state) if out == "DOk" else True
             code = {"none": 0, "some": 1}.get(obs, {"raise:OSError": 2, "raise:EOFError": 3, "raise:error": 4,
                                                    "raise:ValueError": 5, "raise:ValidationError": 5}.get(obs, 9))
-            cases.append(f"({OUTCOMES.index(out)}, {code}, {g_bool(same)})")
+            cases.append(f"({OUTCOMES.index(out)}, {code}, {g_bool(same)}, {g_z(gz)}, {g_z(js)})")
             meta.append(case)
             # Core._load_state / Core._setup on a subset (and on everything that is not a plain prefix/subst)
             if i % core_every == 0 or cls not in ("prefix", "subst"):
@@ -734,11 +762,16 @@ def load_stage(chk):
            "  else if n =? 3 then DZlibError else if n =? 4 then DValueError else DOk tt.\n")
     ok1 = _eval_mismatches(
         chk, "load_model", cases, meta,
-        dec + "Definition ok (c : Z * Z * bool) : bool :=\n"
-              "  let '(o, obs, same) := c in\n"
-              "  match load (outcome o) with\n"
-              "  | Ok None => obs =? 0\n  | Ok (Some _) => (obs =? 1) && same\n  | _ => false end.\n",
-        "Z * Z * bool", shard=500)
+        dec + "Definition gzs (g : Z) : bytes -> gz_outcome := fun b =>\n"
+              "  if g =? 0 then GzOSError else if g =? 1 then GzEOF else if g =? 2 then GzZlib else GzOk b.\n"
+              "Definition jss (j : Z) : bytes -> js_outcome unit := fun _ => if j =? 1 then JsOk tt else JsValueError.\n"
+              "Definition agrees (r : res exn (option unit)) (obs : Z) (same : bool) : bool :=\n"
+              "  match r with Ok None => obs =? 0 | Ok (Some _) => (obs =? 1) && same | _ => false end.\n"
+              "Definition ok (c : Z * Z * bool * Z * Z) : bool :=\n"
+              "  let '(o, obs, same, g, j) := c in\n"
+              "  agrees (load (outcome o)) obs same &&\n"
+              "  agrees (load_file (gzs g) (jss j) (if o =? 0 then None else Some [])) obs same.\n",
+        "Z * Z * bool * Z * Z", shard=500)
     chk.obligation("corr:load_model", "correspondence", ok1)
     ok2 = _eval_mismatches(
         chk, "core_load_model", core_cases, core_meta,
